@@ -11,6 +11,7 @@ import DymVerif.Gen.Guards
        T ::= <alias> <authAlias|-> <bad:0|1> <k> T1 … Tk
   path <i,j,…|-> <k> T1 … Tk         -> at <alias> depth <d> | none      (M-Ante `reach`)
   wrappers                           -> sorted Go types of the wrappers that execute packed messages
+  signer <module.Msg>                -> Go field path of the message's signer (regenerated table)
   own <obj> <actor>                  -> ok          (fixture: object `obj` is owned by actor)
   fix <what> [a<i>]                  -> ok          (fixture maintenance; `fix buy a<i>`: new buy order of actor i = object 5)
   ext <typeURL> <signer>             -> rej         (any message with an Authority field from a non-authority signer)
@@ -98,6 +99,7 @@ def step (s : St) (f : List String) : St × String :=
     let names := realWrappers.filterMap (fun w =>
       if w.2 = Acc.msgs then (Gen.Ante.typeNames.lookup w.1) else none)
     (s, ",".intercalate (names.mergeSort (fun a b => decide (a ≤ b))))
+  | ["signer", m] => (s, (Gen.Guards.signers.lookup m).getD "?")
   | ["own", o, a] => ({ s with owners := setOwner s.owners (nat! o) (nat! (a.drop 1).toString) }, "ok")
   | ["fix", "buy", a] => ({ s with owners := setOwner s.owners 5 (nat! (a.drop 1).toString) }, "ok")
   | ["fix", _] => (s, "ok")
